@@ -78,7 +78,7 @@ class Baton:
             self.to_main.release()
 
 
-def run_session(pcfg, save_filename, save_config, load, schedule, events):
+def run_session(pcfg, save_filename, save_config, load, schedule, events, limit=None):
     """runs the real CrackingSession.run under the baton; returns dict(out, ended, consumed)"""
     common.use_impl()
     import lib_guesser.cracking_session as cs
@@ -130,7 +130,7 @@ def run_session(pcfg, save_filename, save_config, load, schedule, events):
     try:
         with contextlib.redirect_stderr(err):
             try:
-                session.run(load_session=load, limit=None)
+                session.run(load_session=load, limit=limit)
                 ended = 'returned'
             except StopRun:
                 ended = 'stopped'
